@@ -111,11 +111,14 @@ def run(ctx):
     meshes = _meshes(ctx)
     if gen_ok:
         _correspond(ctx, meshes)
-    _oracle_cells(ctx, meshes, tr)
-    _oracle_facets(ctx, meshes, tr)
-    _oracle_invariance(ctx, meshes, tr)
-    _oracle_lagrange(ctx, tr)
-    _oracle_partition_of_unity(ctx, meshes, tr)
+    import traceback
+    for fn, args in ((_oracle_cells, (ctx, meshes, tr)), (_oracle_facets, (ctx, meshes, tr)), (_oracle_invariance, (ctx, meshes, tr)),
+                     (_oracle_lagrange, (ctx, tr)), (_oracle_partition_of_unity, (ctx, meshes, tr))):
+        try:
+            fn(*args)
+        except Exception as e:     # the implementation raised on a valid straight-sided integer mesh
+            ctx.fail(f'exception:{fn.__name__}:{type(e).__name__}', f'{type(e).__name__} raised by the implementation during {fn.__name__}: {e}',
+                     {'traceback': traceback.format_exc()[-3000:], 'seed': ctx.seed})
     ctx.extra['max_relative_discrepancy'] = tr.maxrel
     ctx.extra['max_relative_discrepancy_at'] = tr.where
     ctx.extra['tolerance'] = RTOL
@@ -455,5 +458,41 @@ def _oracle_partition_of_unity(ctx, meshes, tr):
 
 
 def replay(ctx, data):
-    ctx.log('replaying', data.get('key'))
-    run(ctx)
+    """re-run one recorded failing input: rebuild the mesh from the recorded arrays and repeat the comparison"""
+    import skfem
+    from skfem.assembly import Basis, FacetBasis, BilinearForm
+    key = data.get('key', '')
+    inp = data.get('input', {})
+    ctx.log('replaying', key)
+    head = key.split(':')[0]
+    if head not in ('cells', 'subset', 'subdomain', 'facets', 'mass-sum') or 'p' not in inp:
+        return run(ctx)
+    cls = getattr(skfem, inp['mesh'])
+    kw = {'sort_t': False} if 'Tri' in inp['mesh'] else {}
+    m = cls(np.array(inp['p'], dtype=float), np.array(inp['t']), **kw)
+    d = m.p.shape[0]
+    tr = Track(ctx)
+    one = {tuple([0] * d): Fraction(1)}
+    meas = float(sum(X.cell_integrals(m, one)))
+    if head == 'mass-sum':
+        name, _, arg = inp['element'].partition(':')
+        e = getattr(skfem, name)(int(arg)) if arg else getattr(skfem, name)()
+        got = float(BilinearForm(lambda u, v, w: u * v).assemble(Basis(m, e)).sum())
+        tr.cmp(key, 'sum of the mass matrix entries vs the measure', got, meas, meas, inp)
+        return
+    poly = X.monomial(inp['monomial'])
+    F = functional_of(poly)
+    n = inp['intorder']
+    if head == 'facets':
+        fs = np.array(inp['facets'])
+        got = float(F.assemble(FacetBasis(m, default_elem(m), facets=fs, intorder=n)))
+        want = X.facet_integral_value(m, poly, fs)
+        sc = scale_of(m, poly, max(X.facet_integral_value(m, one, fs), 1.0))
+    else:
+        cells = inp.get('elements')
+        b = Basis(m, default_elem(m), intorder=n, elements=None if cells is None else np.array(cells))
+        got = float(F.assemble(b))
+        want = float(sum(X.cell_integrals(m, poly, cells)))
+        sc = scale_of(m, poly, meas)
+    if tr.cmp(key, 'replayed integral', got, want, sc, inp):
+        ctx.log(f'replay: got {got!r}, exact {want!r}: within tolerance, the recorded failure is gone')
